@@ -1,4 +1,5 @@
 import FCA.Generated.SortKeys
+import FCA.Generated.Tolist
 import FCA.Model.Misc
 /-
 C11 over the regenerated source: which orders `Lattice._fromlist(unordered=True)` (the `raw=True` loader) of the current
@@ -32,5 +33,23 @@ theorem C11_generated_fromStored_raw (K : Ctx) (st : List Stored) :
     C11_fromStoredRawCfg K st Generated.fromlist_sort_cfg = some (fromStored K st true) := by
   simp [C11_fromStoredRawCfg, Generated.fromlist_sort_cfg, List.lookup, C11_orderOfName, fromStored]
 
+/-! ### `Lattice._tolist` -/
+
+/-- one part of a stored concept, by (attribute of the concept, conversion): bit sets are listed by `iter_set` (ascending member
+indexes, `bitsets` contract), neighbor tuples by the `index` of their members (the model stores neighbors as indexes already) -/
+def C11_partOfCfg (K : Ctx) (c : LConcept) : String × String → Option (List Nat)
+  | ("_extent", "iter_set") => some (membersW K.n c.extent)
+  | ("_intent", "iter_set") => some (membersW K.m c.intent)
+  | ("upper_neighbors", "index") => some c.upper
+  | ("lower_neighbors", "index") => some c.lower
+  | _ => none
+
+/-- `_tolist()` of the current source writes, per concept, the four parts of the model's `toStored`, in its order -/
+theorem C11_generated_tolist (K : Ctx) (L : Lattice) :
+    L.map (fun c => Generated.tolist_cfg.map (C11_partOfCfg K c)) =
+      (toStored K L).map fun s => [some s.extent, some s.intent, some s.upper, some s.lower] := by
+  simp [toStored, Generated.tolist_cfg, C11_partOfCfg]
+
 end FCA
 #print axioms FCA.C11_generated_fromStored_raw
+#print axioms FCA.C11_generated_tolist
